@@ -279,7 +279,7 @@ def main(tier, replay):
                 v.violation({"kind": "property-oracle", "scenario": sc, "violated": bad[:6], "told": r.get("told"),
                              "trace_tail": [e for e in r.get("trace", []) if e["kind"] != "tso" and e.get("client") == "c1"][-50:]})
         traces.append((sc, r))
-    cov.update(run_acceptor(traces, v, PID))
+    cov.update(run_acceptor(traces, v, PID, exe=exe))
     if not gate["ok"]:
         v.violation({"kind": "proof", "theorem_or_file": gate["problems"], "what": "Coq obligations no longer check"}, has_input=False)
     cov.update(evaluations=len(allsc), distinct_nontrivial=len(distinct),
